@@ -20,6 +20,7 @@ Limit(k) == CASE k = "cols" -> 32          \* MaxCols
               [] k = "tname" -> 32         \* _Validation.Table width (the packing limit is 60)
               [] k = "cname" -> 32         \* _Validation.Column width
               [] k = "sname" -> 62         \* 31 UTF-16 units of two packed characters
+              [] k = "sname16" -> 31       \* 31 UTF-16 units of one unpackable character each
 \* exact accounting at the count limit (Pool!PoolWF on the entries of one string, decoded from the saved bytes):
 \* every entry's count is the number of cells referring to it, no count exceeds 65535, an unused entry is empty
 GoodAccounting(e) ==
